@@ -184,6 +184,10 @@ def check_c16(lang, text):
                 fails.append(("position-out-of-range", f"{t.value!r} at {(ln, col)}"))
                 break
             off = starts[ln - 1] + col - 1
+            line_end = starts[ln] - 1 if ln < len(starts) else len(text)
+            if off > line_end:
+                fails.append(("column-past-end-of-line", f"{t.value!r} at {(ln, col)}: line {ln} has {line_end - starts[ln - 1]} columns"))
+                break
             if text[off:off + len(t.value)] != t.value:
                 fails.append(("text-at-position-differs", f"{t.value!r} at {(ln, col)} finds {text[off:off + len(t.value)]!r}"))
                 break
